@@ -556,9 +556,9 @@ def build_B(cd):
 
 
 def enc_cls(cd):
-    n = next(_serial)
-    return "(Cl %d (%d)%%Z %s %s %s %s)" % (
-        n, n, lst("(F %s %s)" % (opt(h, b), _EQ_COQ[e]) for h, e in cd["fields"]),
+    # one class per case: identity and salt are irrelevant there (and large nat literals are unary in Coq)
+    return "(Cl 0 0%%Z %s %s %s %s)" % (
+        lst("(F %s %s)" % (opt(h, b), _EQ_COQ[e]) for h, e in cd["fields"]),
         b(cd["cache"]), b(cd["frozen"]), b(cd["slots"]))
 
 
@@ -746,12 +746,30 @@ def _class_descs(tier, rng):
     return out
 
 
+_twin = {"pairs": 0, "differ": 0}
+
+
+def _twin_probe(cd, vec):
+    """Informational only (never a discrepancy): two classes with the same field configuration and different
+    qualnames - does the type salt tell them apart?  The property does not demand it."""
+    try:
+        h1 = hash(_inst(build_B(cd), vec))
+        h2 = hash(_inst(build_B(cd), vec))
+    except Exception:
+        return
+    _twin["pairs"] += 1
+    _twin["differ"] += h1 != h2
+
+
 def gen_B(tier, rng):
     cases = []
-    for cd in _class_descs(tier, rng):
+    _twin["pairs"] = _twin["differ"] = 0
+    for n, cd in enumerate(_class_descs(tier, rng)):
         k = len(cd["fields"])
         vecs = [list(v) for v in itertools.product(range(3), repeat=k)]
         cases.append(mk_M(cd, vecs))
+        if n % 5 == 0:
+            _twin_probe(cd, vecs[-1])
         start = [rng.randrange(3) for _ in range(k)]
         fixed = _fixed_histories(cd, start, rng)
         picks = fixed if (tier == "thorough" and k <= 2 and rng.random() < 0.25) else rng.sample(fixed, 2)
@@ -793,7 +811,9 @@ def extra(tier, seed):
                             "attrs base class %r could not be built: %s" % (k, msg),
                             {"corpus": "c04_bases_build"})
            for k, msg in _base_errors[:5]]
-    return out, {"runtime_observations": 0}
+    return out, {"runtime_observations": 0,
+                 "info_twin_classes_hash_differently": "%d of %d same-shape class pairs (type salt; not asserted)"
+                 % (_twin["differ"], _twin["pairs"])}
 
 
 def rerun(inp):
